@@ -476,7 +476,7 @@ def jobs(tier):
     multi = ["features/steps/test_files/sld-slides.pptx", "features/steps/test_files/shp-shapes.pptx",
              "features/steps/test_files/cht-charts.pptx", "tests/test_files/test.pptx"]
     decks += ["%s|%s" % (d, how) for d in multi for how in ("rotate", "gap")]
-    n = 40 if tier == "thorough" else 6
+    n = 40 if tier == "thorough" else 14
     return [{"decks": decks[i::16], "n": n} for i in range(16)]
 
 
